@@ -94,12 +94,33 @@ impl<'a> W2<'a> {
     }
 
     fn compare_all(&mut self, acting: usize, op: &str) {
+        // C15: whatever is reachable through a container (or a live iterator) is a live value
+        for i in 0..self.clients.len() {
+            let r = match &self.clients[i] {
+                Client::VTr(p) => p.reachable_live(),
+                Client::VBig(p) => p.reachable_live(),
+                Client::B(p) => {
+                    let mut ids = Vec::new();
+                    p.reachable_ids(&mut ids);
+                    let bad = track::ledger(|l| ids.iter().copied().find(|&id| l.get(0, id) != 1));
+                    match bad {
+                        Some(id) => Err(format!("value #{} is reachable through a Box but is not live", id)),
+                        None => Ok(()),
+                    }
+                }
+                _ => Ok(()),
+            };
+            if let Err(detail) = r {
+                self.violate("C15", "reachable-value-not-live", "", op, format!("client {}: {}", i, detail));
+                break;
+            }
+        }
         for i in 0..self.clients.len() {
             let r: Result<(), (&'static str, String)> = match &self.clients[i] {
                 Client::V8(p) => p.compare().map_err(|e| ("contents-differ", e)),
                 Client::V32(p) => p.compare().map_err(|e| ("contents-differ", e)),
-                Client::VTr(p) => p.compare().and_then(|_| p.reachable_live()).map_err(|e| ("contents-differ", e)),
-                Client::VBig(p) => p.compare().and_then(|_| p.reachable_live()).map_err(|e| ("contents-differ", e)),
+                Client::VTr(p) => p.compare().map_err(|e| ("contents-differ", e)),
+                Client::VBig(p) => p.compare().map_err(|e| ("contents-differ", e)),
                 Client::VZt(p) => p.compare().map_err(|e| ("contents-differ", e)),
                 Client::S(p) => p.compare(),
                 Client::R(blocks) => {
@@ -253,14 +274,12 @@ impl<'a> W2<'a> {
             }
             self.fp.mix(o.b.is_err() as u64);
         }
-        if !self.viol.is_empty() {
-            return;
-        }
+        // evaluate every oracle of this step even if one already failed: one fact can violate
+        // several properties (an overwritten element is a wrong value *and* a drop-ledger error)
+        let before = self.viol.len();
         self.compare_all(ci, &name);
-        if !self.viol.is_empty() {
-            return;
-        }
         self.compare_worlds(&name);
+        let _ = before;
         if !self.viol.is_empty() {
             return;
         }
